@@ -381,8 +381,33 @@ theorem lookup_mirror (pre : List Char) (names : List (List Char)) (n : List Cha
       have : (n ∈ m :: ms) = (n ∈ ms) := by simp [h]
       simp only [this]
 
-theorem takeWhile_prefixGo (pre : List Char) (ac : Bool) (g : List Char) (hac : ac = true → g.head? ≠ some ' ') :
-    (prefixGo pre ac g).takeWhile (fun c => c != ',') = g.takeWhile (fun c => c != ',') := by
+theorem startsSep_cons_cons (c d : Char) (r : List Char) :
+    startsSep (c :: d :: r) = (c == ',' && d == ' ') := by
+  by_cases hc : c = ','
+  · subst hc
+    by_cases hd : d = ' '
+    · subst hd; rfl
+    · have : (d == ' ') = false := by simpa using hd
+      simp only [this, Bool.and_false]
+      unfold startsSep
+      split
+      · rename_i heq; injection heq with _ h2; injection h2 with h3 _; exact absurd h3 hd
+      · rfl
+  · have : (c == ',') = false := by simpa using hc
+    simp only [this, Bool.false_and]
+    unfold startsSep
+    split
+    · rename_i heq; injection heq with h1 _; exact absurd h1 hc
+    · rfl
+
+theorem startsSep_singleton (c : Char) : startsSep [c] = false := by
+  unfold startsSep
+  split
+  · rename_i heq; injection heq with _ h2; cases h2
+  · rfl
+
+theorem firstMember_prefixGo (pre : List Char) (ac : Bool) (g : List Char) (hac : ac = true → g.head? ≠ some ' ') :
+    firstMember (prefixGo pre ac g) = firstMember g := by
   induction g generalizing ac with
   | nil => simp [prefixGo]
   | cons c rest ih =>
@@ -392,26 +417,55 @@ theorem takeWhile_prefixGo (pre : List Char) (ac : Bool) (g : List Char) (hac : 
       · have := hac rfl
         simp at this
         simp [this]
-    simp only [prefixGo, h1, Bool.false_eq_true, if_false, List.takeWhile_cons]
-    by_cases hc : c = ','
-    · subst hc; simp
-    · have : (c != ',') = true := by simpa using hc
-      simp only [this, if_true]
-      congr 1
-      cases rest with
-      | nil => simp [prefixGo]
-      | cons d rest' =>
-        by_cases hd : ((c == ',') && d == ' ') = true
-        · simp at hd; exact absurd hd.1 hc
-        · have hcf : (c == ',') = false := by simpa using hc
-          rw [hcf]
-          exact ih false (by simp)
+    simp only [prefixGo, h1, Bool.false_eq_true, if_false]
+    cases rest with
+    | nil => simp [prefixGo, firstMember, startsSep_singleton]
+    | cons d rest' =>
+      have hX : ∃ X, prefixGo pre (c == ',') (d :: rest') = d :: X := by
+        simp only [prefixGo]
+        split
+        · exact ⟨_, rfl⟩
+        · exact ⟨_, rfl⟩
+      obtain ⟨X, hX⟩ := hX
+      by_cases hs : (c == ',' && d == ' ') = true
+      · rw [firstMember, firstMember, hX, startsSep_cons_cons, startsSep_cons_cons, hs]
+        simp
+      · have hs' : (c == ',' && d == ' ') = false := by simpa using hs
+        have e1 : firstMember (c :: prefixGo pre (c == ',') (d :: rest'))
+            = c :: firstMember (prefixGo pre (c == ',') (d :: rest')) := by
+          rw [firstMember, hX, startsSep_cons_cons, hs']; simp
+        have e2 : firstMember (c :: d :: rest') = c :: firstMember (d :: rest') := by
+          rw [firstMember, startsSep_cons_cons, hs']; simp
+        rw [e1, e2]
+        congr 1
+        apply ih
+        intro hc
+        simp only [List.head?_cons, ne_eq, Option.some.injEq]
+        intro hd
+        rw [hc, hd] at hs'
+        simp at hs'
+
+theorem firstMember_append_of_noComma (pre X : List Char) (hpre : ∀ c ∈ pre, c ≠ ',') :
+    firstMember (pre ++ X) = pre ++ firstMember X := by
+  induction pre with
+  | nil => rfl
+  | cons c cs ih =>
+    have hc : c ≠ ',' := hpre c (List.mem_cons_self ..)
+    have hs : startsSep (c :: (cs ++ X)) = false := by
+      cases h : cs ++ X with
+      | nil => exact startsSep_singleton c
+      | cons d r =>
+        rw [startsSep_cons_cons]
+        have : (c == ',') = false := by simpa using hc
+        simp [this]
+    rw [List.cons_append, firstMember, hs]
+    simp only [Bool.false_eq_true, if_false, List.cons_append]
+    rw [ih (fun d hd => hpre d (List.mem_cons_of_mem _ hd))]
 
 theorem firstMember_prefixGroup (pre g : List Char) (hpre : ∀ c ∈ pre, c ≠ ',') :
     firstMember (prefixGroup pre g) = pre ++ firstMember g := by
-  unfold firstMember prefixGroup
-  rw [List.takeWhile_append_of_pos (by intro a ha; simpa using hpre a ha)]
-  rw [takeWhile_prefixGo pre false g (by simp)]
+  unfold prefixGroup
+  rw [firstMember_append_of_noComma pre _ hpre, firstMember_prefixGo pre false g (by simp)]
 
 /-! ## protein-level q-values -/
 
